@@ -889,6 +889,18 @@ public:
                     ++column_index_;
                     state_ = csv_parse_state::end_record;
                     break;
+                case csv_parse_state::between_values: // input ends right after a closing quote
+                    if (!(ignore_empty_values_ && buffer_.empty()))
+                    {
+                        before_value(local_visitor, ec);
+                        ++column_;
+                        state_ = csv_parse_state::before_last_quoted_field;
+                    }
+                    else
+                    {
+                        state_ = csv_parse_state::end_record;
+                    }
+                    break;
                 case csv_parse_state::escaped_value:
                     if (quote_escape_char_ == quote_char_)
                     {
